@@ -2,6 +2,7 @@ package engine
 
 import (
 	"fmt"
+	"math/bits"
 
 	"github.com/nspcc-dev/neo-go/pkg/compiler"
 	"github.com/nspcc-dev/neo-go/pkg/core/native/nativenames"
@@ -35,11 +36,16 @@ type gasModel struct {
 	gasIR                  []int64
 	fee                    int64
 	cand                   bool
+	votes                  map[string]uint8 // without Notary: decision -> bitmask of Alphabet keys that voted
 }
 
 func (m *gasModel) Clone() Model {
 	c := *m
 	c.gasIR = append([]int64{}, m.gasIR...)
+	c.votes = map[string]uint8{}
+	for k, v := range m.votes {
+		c.votes[k] = v
+	}
 	return &c
 }
 func (m *gasModel) Key() []byte { return nil }
@@ -48,7 +54,7 @@ type gasOp struct {
 	kind   string // deposit direct fake withdraw cheque candAdd candRm setFee
 	amt    int64
 	data   string // nil rcv bad19 ignore
-	signer string // U S X AL
+	signer string // U S X AL (without Notary: the first stored Alphabet key) I1 I2 I3 (the other stored keys)
 }
 
 type GasDriver struct {
@@ -84,6 +90,15 @@ func NewGasDriver(notary bool, n int) *GasDriver {
 		add(gasOp{kind: "cheque", amt: 1, signer: "AL"}, gasOp{kind: "cheque", amt: 3, signer: "AL"}, gasOp{kind: "cheque", amt: 3, signer: "S"}, gasOp{kind: "cheque", amt: 3, signer: "U"},
 			gasOp{kind: "cheque", amt: 2 * maxDeposit, signer: "AL"},
 			gasOp{kind: "setFee", amt: 0, signer: "AL"}, gasOp{kind: "setFee", amt: 2, signer: "AL"}, gasOp{kind: "setFee", amt: 2, signer: "S"}, gasOp{kind: "candRm", signer: "AL"})
+	} else {
+		// without Notary and with several keys every Alphabet decision is vote-collected: one op per key
+		for k, sg := range []string{"AL", "I1", "I2", "I3"}[:min(n, 4)] {
+			add(gasOp{kind: "cheque", amt: 3, signer: sg})
+			if k < 3 {
+				add(gasOp{kind: "setFee", amt: 2, signer: sg}, gasOp{kind: "candRm", signer: sg})
+			}
+		}
+		add(gasOp{kind: "cheque", amt: 3, signer: "S"}, gasOp{kind: "cheque", amt: 3, signer: "U"}, gasOp{kind: "setFee", amt: 2, signer: "S"})
 	}
 	return d
 }
@@ -122,7 +137,7 @@ func (d *GasDriver) Build() *World {
 }
 
 func (d *GasDriver) Init(w *World) Model {
-	m := &gasModel{fee: 7}
+	m := &gasModel{fee: 7, votes: map[string]uint8{}}
 	m.gasU, m.gasX = gasOf(w, w.Root, d.u.Hash), gasOf(w, w.Root, d.x.Hash)
 	for _, a := range d.ir {
 		m.gasIR = append(m.gasIR, gasOf(w, w.Root, a.Hash))
@@ -164,6 +179,7 @@ func (d *GasDriver) Step(x *Exec, n *Node, i int) StepResult {
 		return StepResult{V: Viol(class, msg, where), Outcome: "violation"}
 	}
 	var signer util.Uint160
+	voter := 0
 	switch o.signer {
 	case "U":
 		signer = d.u.Hash
@@ -177,6 +193,24 @@ func (d *GasDriver) Step(x *Exec, n *Node, i int) StepResult {
 		} else {
 			signer = d.ir[0].Hash
 		}
+	case "I1", "I2", "I3":
+		voter = int(o.signer[1] - '0')
+		signer = d.ir[voter].Hash
+	}
+	alpha := o.signer == "AL" || voter > 0
+	// decided reports whether this invocation completes the decision: always with Notary (the multi-signature
+	// is the decision), at floor(2n/3)+1 distinct stored keys without it
+	decided := func(key string) bool {
+		if d.Notary {
+			return true
+		}
+		b := nm.votes[key] | 1<<voter
+		if bits.OnesCount8(b) >= d.N*2/3+1 {
+			delete(nm.votes, key)
+			return true
+		}
+		nm.votes[key] = b
+		return false
 	}
 	var data any
 	rcv := d.u.Hash
@@ -255,7 +289,11 @@ func (d *GasDriver) Step(x *Exec, n *Node, i int) StepResult {
 		}
 	case "cheque":
 		scr = Script(h, "cheque", []byte(fmt.Sprintf("cheque-%d", o.amt)), d.u.Hash, o.amt, []byte("lock"))
-		if o.signer != "AL" || o.amt > m.gasC {
+		if !alpha {
+			expHalt = false
+		} else if !decided(fmt.Sprintf("cheque-%d", o.amt)) {
+			// a vote short of the threshold: recorded, nothing paid
+		} else if o.amt > m.gasC {
 			expHalt = false
 		} else {
 			nm.gasC -= o.amt
@@ -269,8 +307,9 @@ func (d *GasDriver) Step(x *Exec, n *Node, i int) StepResult {
 			val = []byte{byte(o.amt)}
 		}
 		scr = Script(h, "setConfig", []byte(fmt.Sprintf("fee-%d", o.amt)), []byte("WithdrawFee"), val)
-		if o.signer != "AL" {
+		if !alpha {
 			expHalt = false
+		} else if !decided(fmt.Sprintf("fee-%d", o.amt)) {
 		} else {
 			nm.fee = o.amt
 			expN = []Notif{{"neofs", "SetConfig", []any{NXs(fmt.Sprintf("fee-%d", o.amt)), NXs("WithdrawFee"), NX(val)}}}
@@ -289,7 +328,7 @@ func (d *GasDriver) Step(x *Exec, n *Node, i int) StepResult {
 		scr = Script(h, "innerRingCandidateRemove", d.x.Pub())
 		if o.signer == "S" || o.signer == "U" {
 			expHalt = false
-		} else {
+		} else if o.signer == "X" || decided("candrm") {
 			nm.cand = false
 		}
 	}
